@@ -84,7 +84,16 @@ FRESH_PROGS = {
           'WITH SERDEPROPERTIES ("input.regex" = "([^ ]*) ([^ ]*)") STORED AS TEXTFILE; -- ca\n', {}),
     "b": ("CREATE TABLE [dbo].[t_b] ([x] int, [y] varchar(5)) TBLPROPERTIES ('k1'='v1', 'k2'='v2'); -- cb\nCREATE SEQUENCE sq_b START 5;\n", {"normalize_names": True}),
     "c": ('CREATE TABLE "T_c" ("Id" int PRIMARY KEY); -- cc\nCREATE TABLE bad (x int, PRIMARY);\n', {"silent": False}),
+    # objects that differ in their run() arguments / diagnostic flags (pair histories below)
+    "d": ("CREATE EXTERNAL TABLE t_d (a string, b int) PARTITIONED BY (dt string) ROW FORMAT DELIMITED FIELDS TERMINATED BY ',' ESCAPED BY '\\\\' "
+          "STORED AS TEXTFILE LOCATION 's3://b/d'; -- cd\n", {}, {"output_mode": "athena"}),
+    "e": ("CREATE TABLE t_e (a int NOT NULL, b varchar(5) DEFAULT 'x', PRIMARY KEY (a)); -- ce\nALTER TABLE t_e ADD UNIQUE (b);\n", {"debug": True}, {"output_mode": "sql"}),
+    "f": ("CREATE TABLE t_f (a int, b int) CLUSTER BY (a) DATA_RETENTION_TIME_IN_DAYS = 3; -- cf\nCREATE SEQUENCE sq_f START 2;\n", {}, {"output_mode": "snowflake", "group_by_type": True}),
+    "g": ("CREATE TABLE t_g (a int, b int) ENGINE=InnoDB DEFAULT CHARSET=utf8; -- cg\n", {"normalize_names": True}, {"output_mode": "mysql", "json_dump": True}),
 }
+MODE_DDL = ("CREATE EXTERNAL TABLE s1.t_m (a int NOT NULL, b varchar(5), c int ENCODE zstd) PARTITIONED BY (dt string) CLUSTERED BY (a) INTO 4 BUCKETS "
+            "ROW FORMAT DELIMITED FIELDS TERMINATED BY ',' ESCAPED BY '#' STORED AS TEXTFILE LOCATION 's3://b/m' TBLPROPERTIES ('k'='v'); -- cm\n"
+            "CREATE TABLE t_n (a int, b int) ENGINE=InnoDB TABLESPACE ts1;\nCREATE SEQUENCE sq_m START 2;\nALTER TABLE t_n ADD FOREIGN KEY (a) REFERENCES s1.t_m (a);\n")
 FRESH_SRC = r'''
 import sys, json
 sys.path.insert(0, %r)
@@ -93,12 +102,13 @@ from simple_ddl_parser import DDLParser
 job = json.load(sys.stdin)
 objs, out = {}, {}
 for op, o in job["ops"]:
-    text, flags = job["progs"][o]
+    text, flags = job["progs"][o][:2]
+    kw = job["progs"][o][2] if len(job["progs"][o]) > 2 else {"output_mode": "hql"}
     if op == "construct":
         objs[o] = DDLParser(text, **flags)
     else:
         try:
-            r = ["ok", objs[o].run(output_mode="hql")]
+            r = ["ok", objs[o].run(**kw)]
         except BaseException as e:
             r = ["exc", type(e).__name__]
         out.setdefault(o, []).append(r)
@@ -106,11 +116,11 @@ json.dump(out, sys.stdout, default=repr)
 '''
 
 
-def _fresh_task(ops):
+def _fresh_task(ops, progs=None):
     import subprocess
     env = dict(os.environ)
     env.pop(C.GUARD, None)
-    p = subprocess.run([C.PY, "-c", FRESH_SRC % C.REPO], input=json.dumps({"ops": ops, "progs": FRESH_PROGS}), text=True,
+    p = subprocess.run([C.PY, "-c", FRESH_SRC % C.REPO], input=json.dumps({"ops": ops, "progs": progs or FRESH_PROGS}), text=True,
                        stdout=subprocess.PIPE, stderr=subprocess.PIPE, env=env, cwd="/")
     if p.returncode != 0:
         return {"error": p.stderr[-500:]}
@@ -137,6 +147,51 @@ def fresh_histories(V, behs, rnd, n):
                     V.mismatch({"kind": "fresh-interpreter history", "object": o, "run": i + 1, "history": [f"{a}({x})" for a, x in ops],
                                 "script": FRESH_PROGS[o][0], "flags": FRESH_PROGS[o][1], "expected_solo": _short(solo[o][o][0]), "observed": _short(r)})
     return len(hs)
+
+
+def _mode_pair(t):
+    m1, m2 = t
+    progs = {"x": (MODE_DDL, {}, {"output_mode": m1}), "y": (MODE_DDL.replace("t_m", "t_y"), {}, {"output_mode": m2})}
+    return _fresh_task([["construct", "x"], ["run", "x"], ["construct", "y"], ["run", "y"]] if m1 else [["construct", "y"], ["run", "y"]], progs)
+
+
+def pair_histories(V, rnd, thorough):
+    """every ordered pair of the objects a..g in three call orders, and ordered pairs of output modes on one dialect-rich script,
+    each in its own interpreter: what one object's run leaves behind in the process (class attributes, module globals, caches) must
+    not reach the other"""
+    objs = sorted(FRESH_PROGS)
+    solo = {o: _fresh_task([["construct", o], ["run", o]])[o][0] for o in objs}
+    hs = []
+    for a in objs:
+        for b in objs:
+            if a != b:
+                hs += [[["construct", a], ["run", a], ["construct", b], ["run", b]], [["construct", a], ["construct", b], ["run", a], ["run", b]],
+                       [["construct", a], ["construct", b], ["run", b], ["run", a], ["run", b]]]
+    res = C.pool().map(_fresh_task, hs, 1)
+    for ops, out in zip(hs, res):
+        if "error" in out:
+            V.mismatch({"kind": "fresh-interpreter pair history", "problem": "the interpreter died / an exception escaped the harness", "history": [f"{a}({x})" for a, x in ops],
+                        "error": out["error"][-300:]})
+            continue
+        for o, runs in out.items():
+            for i, r in enumerate(runs):
+                if r != solo[o]:
+                    V.mismatch({"kind": "fresh-interpreter pair history", "object": o, "run": i + 1, "history": [f"{a}({x})" for a, x in ops],
+                                "script": FRESH_PROGS[o][0], "flags": FRESH_PROGS[o][1], "run_args": FRESH_PROGS[o][2] if len(FRESH_PROGS[o]) > 2 else {},
+                                "expected_solo": _short(solo[o]), "observed": _short(r)})
+    from .. import clauses as K
+    modes = list(K.MODES)
+    msolo = dict(zip(modes, C.pool().map(_mode_pair, [(None, m) for m in modes], 1)))
+    pairs = [(m1, m2) for m1 in modes for m2 in modes if m1 != m2]
+    if not thorough:
+        pairs = rnd.sample(pairs, 40) + [("hql", "athena"), ("athena", "hql"), ("sql", "bigquery"), ("bigquery", "sql")]
+    for (m1, m2), out in zip(pairs, C.pool().map(_mode_pair, pairs, 1)):
+        if "error" in out or "error" in msolo[m2]:
+            raise C.MachineryError("mode-pair history failed: " + str(out.get("error") or msolo[m2].get("error")))
+        if out["y"] != msolo[m2]["y"]:
+            V.mismatch({"kind": "fresh-interpreter mode pair", "history": [f"run(output_mode={m1})", f"run(output_mode={m2}) of another object"], "script": MODE_DDL,
+                        "expected_solo": _short(msolo[m2]["y"][0]), "observed": _short(out["y"][0])})
+    return len(hs), len(pairs)
 
 
 def run(tier, seed):
@@ -204,6 +259,7 @@ def run(tier, seed):
     cov["behaviours_exported"] = len(tasks)
     call_behs = [b for (objs, ns, mr, v, gran, b) in meta if gran == "call"]
     cov["fresh_interpreter_histories"] = fresh_histories(V, call_behs, rnd, 40 if tier == "quick" else 400)
+    cov["fresh_interpreter_pair_histories"], cov["fresh_interpreter_mode_pairs"] = pair_histories(V, rnd, tier == "thorough")
 
     # ---- 4. replay into the real code (one real thread per object) -----------------------------
     solos = {}
